@@ -85,7 +85,7 @@ def e(x):
         return '('+out+')'
     if h=='If': return 'if '+e(x[1])+' { '+e(x[2])+' } else { '+(e(x[3]) if len(x)>3 else '')+' }'
     if h=='Ctor': return 'Ctor'+str([e(y) for y in x[1:]])
-    return h+'['+' '.join(e(y) for y in x[1:])+']'
+    return str(h)+'['+' '.join(e(y) for y in x[1:])+']'
 def flatten(z):
     if isinstance(z,list):
         for y in z: yield from flatten(y)
